@@ -50,6 +50,10 @@ def frame(payload):
     return MAGIC + struct.pack(b">I", len(payload)) + payload
 
 
+_TOOBIG = [0]
+EXPECT_REFUSED_AFTER = [None]      # for streams with an over-limit length: the number of frames delivered before the refusal
+
+
 def make_stream(rng, kind):
     """a byte stream: framed valid messages, optionally followed/interrupted by a corruption"""
     parts = []
@@ -62,6 +66,7 @@ def make_stream(rng, kind):
                 break
         parts.append(frame(p))
     s = b"".join(parts)
+    EXPECT_REFUSED_AFTER[0] = None
     if kind == "badmagic":
         k = rng.randrange(0, len(parts) + 1)
         pos = rng.randrange(0, 4)
@@ -70,8 +75,11 @@ def make_stream(rng, kind):
         s = b"".join(parts[:k]) + bytes(junk) + b"".join(parts[k:])
     elif kind == "toobig":
         k = rng.randrange(0, len(parts) + 1)
-        ln = rng.choice([MAX_MESSAGE_SIZE + 1, MAX_MESSAGE_SIZE + 2, 2 ** 32 - 1, 2 ** 31])
+        # every over-limit length in turn: just over, the sign bit of a 32-bit field, the all-ones value
+        _TOOBIG[0] += 1
+        ln = [MAX_MESSAGE_SIZE + 1, 2 ** 32 - 1, 2 ** 31, 2 ** 31 - 1, 2 ** 32 - 16, MAX_MESSAGE_SIZE + 2][_TOOBIG[0] % 6]
         s = b"".join(parts[:k]) + MAGIC + struct.pack(b">I", ln) + gens.rb(rng, rng.randrange(0, 9))
+        EXPECT_REFUSED_AFTER[0] = k
     elif kind == "atlimit":
         # a length exactly at the limit is not refused: the receiver waits for the body
         s = s + MAGIC + struct.pack(b">I", MAX_MESSAGE_SIZE) + gens.rb(rng, 5)
@@ -92,7 +100,18 @@ def make_stream(rng, kind):
         s = s + bytes(bad) + gens.rb(rng, rng.randrange(0, 4))
     elif kind == "tail_toobig":
         # … or in exactly the 8 header bytes of a next frame whose length is over the limit
-        s = s + MAGIC + struct.pack(b">I", rng.choice([MAX_MESSAGE_SIZE + 1, 2 ** 32 - 1]))
+        _TOOBIG[0] += 1
+        s = s + MAGIC + struct.pack(b">I", [2 ** 32 - 1, MAX_MESSAGE_SIZE + 1, 2 ** 31][_TOOBIG[0] % 3])
+        EXPECT_REFUSED_AFTER[0] = len(parts)
+    elif kind == "toobig_wrap":
+        # an over-limit length field of 2^32 - k in front of a perfectly valid message followed by k more bytes (what a
+        # length read as a negative number would slice off)
+        _TOOBIG[0] += 1
+        k_ = [1, 16, 4][_TOOBIG[0] % 3]
+        m = gens.message(rng)
+        valid = gens.msg_header(rng).serialize() + m.serialize()
+        s = s + MAGIC + struct.pack(b">I", 2 ** 32 - k_) + valid + gens.rb(rng, k_)
+        EXPECT_REFUSED_AFTER[0] = len(parts)
     elif kind == "tail_partial":
         # … or in an incomplete, so far well-formed header: not refused, the receiver waits
         s = s + (MAGIC + struct.pack(b">I", rng.randrange(0, 300)))[:rng.randrange(1, 8)]
@@ -192,7 +211,7 @@ def run(ctx):
     socket_path(ctx, res)
     ops, impl = [], []
     kinds = ["plain", "badmagic", "toobig", "atlimit", "pastend", "zerolen", "garbagepayload", "mutated", "long", "short", "short",
-             "tail_badmagic", "tail_toobig", "tail_partial", "tail_badmagic"]
+             "tail_badmagic", "tail_toobig", "tail_partial", "tail_badmagic", "toobig_wrap", "toobig_wrap"]
 
     def one(chunks, stream_id, whole_line):
         line, payloads, err = impl_feed(chunks)
@@ -216,6 +235,10 @@ def run(ctx):
         impl.append(whole_line)
         res.count("stream:" + kind)
         res.count("outcome:" + err)
+        if EXPECT_REFUSED_AFTER[0] is not None and (err != "toobig" or len(payloads) != EXPECT_REFUSED_AFTER[0]):
+            res.violations.append({"kind": "a frame announcing a length over the limit was not refused at that point: %d message(s) "
+                                           "delivered (%d precede it), outcome %s" % (len(payloads), EXPECT_REFUSED_AFTER[0], err),
+                                   "stream": s.hex()})
         res.case(("stream", s))
         if i < 3:
             res.sample({"kind": kind, "stream_len": len(s), "result": whole_line[-60:]})
